@@ -22,15 +22,15 @@ func (b *Bool) CompareAndSwap(o, n bool) bool {
 
 type Int32 struct{ v atomic.Int32 }
 
-func (b *Int32) Load() int32         { vsched.Point("atomic.Int32.Load"); return b.v.Load() }
-func (b *Int32) Store(x int32)       { vsched.Point("atomic.Int32.Store"); b.v.Store(x) }
-func (b *Int32) Add(x int32) int32   { vsched.Point("atomic.Int32.Add"); return b.v.Add(x) }
+func (b *Int32) Load() int32       { vsched.Point("atomic.Int32.Load"); return b.v.Load() }
+func (b *Int32) Store(x int32)     { vsched.Point("atomic.Int32.Store"); b.v.Store(x) }
+func (b *Int32) Add(x int32) int32 { vsched.Point("atomic.Int32.Add"); return b.v.Add(x) }
 
 type Int64 struct{ v atomic.Int64 }
 
-func (b *Int64) Load() int64         { vsched.Point("atomic.Int64.Load"); return b.v.Load() }
-func (b *Int64) Store(x int64)       { vsched.Point("atomic.Int64.Store"); b.v.Store(x) }
-func (b *Int64) Add(x int64) int64   { vsched.Point("atomic.Int64.Add"); return b.v.Add(x) }
+func (b *Int64) Load() int64       { vsched.Point("atomic.Int64.Load"); return b.v.Load() }
+func (b *Int64) Store(x int64)     { vsched.Point("atomic.Int64.Store"); b.v.Store(x) }
+func (b *Int64) Add(x int64) int64 { vsched.Point("atomic.Int64.Add"); return b.v.Add(x) }
 
 func LoadInt32(p *int32) int32     { vsched.Point("atomic.LoadInt32"); return atomic.LoadInt32(p) }
 func StoreInt32(p *int32, v int32) { vsched.Point("atomic.StoreInt32"); atomic.StoreInt32(p, v) }
